@@ -1,11 +1,20 @@
-"""C06 -- SRT/WebVTT cues carry exactly the visible text over exactly its intervals.   Level: other (proved kernel + bounded).
+"""C06 -- SRT/WebVTT cues carry exactly the visible text over exactly its intervals.   Level: other (proved on shapes + bounded).
 
-Proof tier (all rational times): the begin and end that SrtParagraph / VttCue write are the interval bounds rounded to the
-nearest millisecond (set_begin / set_end / ClockTime.from_seconds / __str__ executed symbolically, the eight printed fields
-recombined), hence at most 0.5 ms away from the exact significant times.
-Bounded tier: rtc/c06.py -- the cue list of srt.writer.from_model / vtt.writer.from_model against the reference flattening
-specs/cues.py (independent ISD oracle specs/isd.py) over generated documents x writer configurations; the default end of an
-unbounded last cue (begin + 10 s) over a grid of begin times.
+Proof tier (pyvc; all rational timing values, unbounded in time):
+  * kernel: the begin and end that SrtParagraph / VttCue write are the interval bounds rounded to the nearest millisecond
+    (set_begin / set_end / ClockTime.from_seconds / __str__ executed symbolically, the eight printed fields recombined);
+  * the WHOLE writers on document shapes (specs/isd_shapes.py: two paragraphs, nested spans with a line break, rubies with timed
+    parts, a line break with <set>, -- thorough: regions, three symbolic values): srt.writer.from_model / vtt.writer.from_model
+    are executed symbolically (ISD generation, both merge filters, the tree walk, cue serialisation), the written text is taken
+    apart into its literal text and its formatted numbers (format tokens), parsed by the strict reader of specs/cues.py, and on
+    every feasible path the cue list must describe the same function time -> payload as the reference flattening of the oracle
+    snapshots (specs/isd.py) at the significant times; also: the output is grammatical, every cue has begin < end.
+    ClockTime.from_seconds is used through its contract (contracts/callee.py), discharged by three harnesses of this run.
+    The significant times used for the reference are those the real code computes; that they are complete is C02's obligation
+    for the same shapes.
+Bounded tier: rtc/c06.py -- the same relation over generated documents (arbitrary nesting, text with markup-significant
+characters, regions, moving regions, partial rubies) x writer configurations; the default end of an unbounded last cue
+(begin + 10 s) over a grid of begin times.
 """
 from __future__ import annotations
 
@@ -46,8 +55,20 @@ FUNCTIONS_B = ["ttconv.srt.writer:from_model", "ttconv.srt.writer:SrtContext.app
                "ttconv.vtt.cue:VttCue.normalize_eol", "ttconv.vtt.cue:VttCue.is_only_whitespace_or_empty", "ttconv.isd:ISD.generate_isd_sequence"]
 
 
+WRITER_SHAPES_QUICK = [("twop", ("b1", "e1")), ("twop", ("e1", "b2")), ("nested", ("s1b", "s3e")), ("nested", ("pb", "s1e")), ("rubyparts", ("rtb", "rte")),
+                       ("rubyparts", ("rbb", "rte")), ("brset", ("pb", "pe"))]
+WRITER_SHAPES_THOROUGH = [("twop", ("b1", "e1", "e2")), ("nested", ("s1b", "s3b", "s3e")), ("rubyparts", ("rt2b", "rt2e", "rp1e")), ("regions", ("r1b", "r1e")),
+                          ("regions", ("d2b", "p3e")), ("ruby", ("rub", "rue"))]
+
+
 def all_harnesses(tier):
-  return [to_string_harness("srt", "times"), to_string_harness("vtt", "times")]
+  from contracts.c12 import clock_harnesses
+  hs = [to_string_harness("srt", "times"), to_string_harness("vtt", "times")]
+  hs += [h for h in clock_harnesses() if h.name.startswith("ClockTime.from_seconds")]      # discharge the callee contract used below
+  for shape, mask in WRITER_SHAPES_QUICK + (WRITER_SHAPES_THOROUGH if tier != "quick" else []):
+    for fmt in ("srt", "vtt"):
+      hs.append(writer_reference_harness(fmt, shape, mask))
+  return hs
 
 
 def check(tier, seed, only=None, skip_a=False, skip_b=False):
@@ -55,18 +76,22 @@ def check(tier, seed, only=None, skip_a=False, skip_b=False):
   if only:
     hs = [h for h in hs if only in h.name]
   for h in hs:
-    h.budget_s = 60.0 if tier == "quick" else 300.0
+    h.budget_s = 300.0 if tier == "quick" else 1800.0
+    h.max_paths = 20000
   cov, findings, undecided, errors = ({}, [], [], [])
   if not skip_a:
     cov, findings, undecided, errors = framework.run_tier_a(PROP, hs)
   cov["trusted_base"] = ASSUMPTIONS
-  cov["explanation"] = ("Proved (all rational times below 2^22 s): the times SrtParagraph / VttCue write are the interval bounds rounded to the "
-                        "nearest millisecond.  Bounded (generated documents: 0-3 simultaneously active regions, several div/p per region, nested "
-                        "div, nested spans, br, ruby, xml:space both, sub-millisecond and unbounded intervals, markup-significant text x SRT "
-                        "text_formatting on/off and WebVTT line_position x text_align x cue_id): cue intervals and tag-stripped payload equal "
-                        "the reference flattening (no visible character dropped, invented, repeated or reordered, no cue without visible "
-                        "text), the writers return; default end = begin + 10 s over a grid of begin times.  Not decided by proof: the merge "
-                        "filters and the tree walk (heap + strings) -- bounded only.")
+  cov["explanation"] = ("Proved (all rational timings below 2^22 s): the times SrtParagraph / VttCue write are the interval bounds rounded to the "
+                        "nearest millisecond; the whole SRT and WebVTT writers on document shapes (two paragraphs, nested spans + br, rubies with "
+                        "timed parts, br with <set>; thorough: regions, three symbols) produce exactly the cue list of the reference flattening, "
+                        "grammatical and with begin < end, ClockTime.from_seconds through its contract.  Bounded (generated documents: 0-3 "
+                        "simultaneously active regions, several div/p per region, nested div, nested spans, br, ruby incl. partial, moving regions, "
+                        "xml:space both, sub-millisecond and unbounded intervals, markup-significant text x SRT text_formatting on/off and WebVTT "
+                        "line_position x text_align x cue_id): the same relation; default end = begin + 10 s over a grid of begin times.  "
+                        "Arbitrary nesting and arbitrary text are bounded only.")
+  from contracts import callee
+  cov["assumed_callee_contracts"] = [{"callee": k, "stated_in": "contracts/callee.py", "discharged_in_this_run_by": v} for k, v in callee.DISCHARGED_BY.items()]
   if not skip_b:
     from pyvc import loader
     data, errs = framework.run_tier_b("c06", tier, seed)
@@ -86,3 +111,83 @@ def check(tier, seed, only=None, skip_a=False, skip_b=False):
       cov["bounded_exhaustive"] = data.get("exhaustive")
       cov["bounded_samples"] = data.get("samples", [])[:6]
   return framework.Outcome(PROP, tier, seed, "other", cov, ASSUMPTIONS, findings, undecided, errors, 0.0)
+
+
+# ---------------------------------------------------------------------------------------------------------------------
+# the whole writer against the reference flattening, on document shapes with symbolic timing
+
+
+def writer_reference_harness(fmt, shape, mask):
+  """For ALL rational values of the masked timing attributes of the shape: the cues the real writer produces (times read from the
+  format tokens of the written text, payloads from the literal text through the strict parser) describe the same function from
+  time to payload as the reference flattening specs/cues.py of the oracle snapshots -- on every feasible path."""
+  from fractions import Fraction
+  from pyvc import core, modular
+  from pyvc.core import assume, prove, sym_frac
+  from pyvc.harness import Harness
+  from contracts import callee
+  from specs.isd_shapes import SHAPES
+  from specs import cues as C
+  from ttconv.isd import ISD
+  import ttconv.srt.writer as srt_writer
+  import ttconv.vtt.writer as vtt_writer
+
+  cfg_name = fmt
+
+  def run(ctx):
+    from rtc import cues_common as CC
+    vals = {}
+
+    def v(name):
+      if name not in mask:
+        return None
+      if name not in vals:
+        x = sym_frac(name)
+        assume(x >= 0)
+        assume(x < 2 ** 22)
+        vals[name] = x
+      return vals[name]
+
+    doc = SHAPES[shape](v)
+    writer = srt_writer if fmt == "srt" else vtt_writer
+    with modular.contracts(callee.CLOCKTIME):
+      st, out = core.call_real(writer.from_model, doc, None, allowed=())
+    import re as _re
+    lits, toks = core.tokens_in(out)
+    prove(all(spec in ("02d", "03") for _, spec in toks), "symbolic-values-occur-only-in-zero-padded-time-fields", note=str([s for _, s in toks][:8]))
+    concrete = lits[0]
+    for (_, spec), lit in zip(toks, lits[1:]):
+      concrete += ("000" if spec == "03" else "00") + lit
+    cues, problems, _ = CC.read_output(cfg_name, concrete)
+    prove(not problems, "output-is-grammatical", note=str(problems)[:200])
+    # the time fields of every timing line: literal digits or a format token
+    fld = "(\\d+|\u27e6sym\\d+\u27e7)"
+    sep = "," if fmt == "srt" else "\\."
+    timing = _re.compile(f"{fld}:{fld}:{fld}{sep}{fld} --> {fld}:{fld}:{fld}{sep}{fld}")
+    tl = [mm for mm in (timing.match(ln) for ln in out.split("\n")) if mm]
+    prove(len(tl) == len(cues), "every-cue-has-its-timing-line", note=f"{len(tl)} timing lines, {len(cues)} cues")
+
+    def val(x):
+      return core.cur().tokens[int(x[4:-1])][0] if x.startswith("\u27e6") else int(x)
+
+    def ms(g):
+      return ((val(g[0]) * 60 + val(g[1])) * 60 + val(g[2])) * 1000 + val(g[3])
+
+    actual = [{"begin": ms(mm.groups()[0:4]), "end": ms(mm.groups()[4:8]), "text": c["text"]} for mm, c in zip(tl, cues)]
+    for a in actual:
+      prove(a["begin"] < a["end"], "cue-begins-before-it-ends")
+    st, sig = core.call_real(ISD.significant_times, doc, allowed=())
+    offs = list(sig)
+    ivs = C.reference_intervals(doc, "base", change_times=lambda d: offs)
+    exp = C.expected_cues(doc, {"format": fmt, "line_position": False}, intervals=ivs)
+    diff = C.timeline_diff(exp, actual)
+    prove(diff is None, "cues==reference-flattening", note=str(diff)[:300])
+
+  return Harness(f"{fmt}.writer==reference[{shape}:{'+'.join(mask)}]", run,
+                 [f"ttconv.{fmt}.writer:from_model", "ttconv.isd:ISD.generate_isd_sequence", "ttconv.isd:ISD.significant_times",
+                  "ttconv.filters.isd.merge_regions:RegionsMergingISDFilter.process", "ttconv.filters.isd.merge_paragraphs:ParagraphsMergingISDFilter.process"] +
+                 (["ttconv.srt.writer:SrtContext.add_isd", "ttconv.srt.writer:SrtContext.finish", "ttconv.srt.paragraph:SrtParagraph.to_string"] if fmt == "srt" else
+                  ["ttconv.vtt.writer:VttContext.add_isd", "ttconv.vtt.writer:VttContext.finish", "ttconv.vtt.cue:VttCue.to_string"]),
+                 "replayers.c06:shape", {"fmt": fmt, "shape": shape, "mask": list(mask)},
+                 "the cues of the whole writer carry exactly the visible text over exactly its intervals (all rational timings, this shape); "
+                 "completeness of the significant times used for the reference is C02's obligation for the same shape")
